@@ -1,8 +1,12 @@
 (* C05 model driver.  Case line:
-     plen=<n> total=<n> done=<01..> seed=<n> | op op ...
+     plen=<n> total=<n> done=<01..> seed=<n> [enc=1] | op op ...
+   enc=1: RC4 connection. The model is run with the all-zero keystream, i.e. it prints the stream
+   as the peer sees it AFTER decrypting with its own (independent) RC4; by theorem
+   piece_bytes_exact_rc4 the wire bytes for any keystream ks are that stream XOR ks at consecutive
+   positions.
    op ::= R:i:b:l | C:i:b:l | D:0 | D:1 | W:k | W:inf
    Output: closed=<0|1> n=<stream bytes> md5=<hex> msgs=<C0|C1|P:i:b:l,...|-> snaps=<one per W op;...|-> q=<final queue|-|X>
-   snapshot after each W op: <I|M|P>/<choked><send_choked>/<queue length>/<cur i:o:l>   or X when closed *)
+   snapshot after each W op: <I|M|P>/<choked><send_choked>/<queue length>/<cur i:o:l>[/e<encrypt buffer remaining>:<size_end>]  or X when closed *)
 let rec ipos p = match p with XH -> 1 | XO q -> 2 * ipos q | XI q -> 2 * ipos q + 1
 let in_ x = match x with N0 -> 0 | Npos p -> ipos p
 
@@ -30,12 +34,13 @@ let show_piece p = Printf.sprintf "%s:%s:%s" (string_of_n p.p_index) (string_of_
 
 let show_queue q = if q = [] then "-" else String.concat "," (List.map show_piece q)
 
-let snap s =
+let snap enc s =
   if s.closed then "X" else
-  Printf.sprintf "%s/%d%d/%d/%s"
+  Printf.sprintf "%s/%d%d/%d/%s%s"
     (match s.ws with Idle -> "I" | Msg -> "M" | WPiece -> "P")
     (if s.choked then 1 else 0) (if s.send_choked then 1 else 0)
     (List.length s.queue) (show_piece s.cur)
+    (if enc && s.ws = WPiece then Printf.sprintf "/e%d:%d" (List.length s.ebuf) (in_ s.eb_end) else "")
 
 let () = each_line (fun line ->
   match String.split_on_char '|' line with
@@ -44,14 +49,16 @@ let () = each_line (fun line ->
       let get k = List.assoc k kvs in
       let plen = int_of_string (get "plen") and total = int_of_string (get "total") in
       let seed = int_of_string (get "seed") and donebits = get "done" in
+      let enc = (try List.assoc "enc" kvs = "1" with Not_found -> false) in
+      let ks _ = N0 in
       let completed i = let j = in_ i in j < String.length donebits && donebits.[j] = '1' in
       let lay = { l_total = n_of_int total; l_plen = n_of_int plen; l_completed = completed } in
       let content i off = byte_tab.(content_byte seed (in_ i * plen + in_ off)) in
       let snaps = ref [] in
       let s = List.fold_left (fun s tok ->
           let o = parse_op tok in
-          let s' = step lay content s o in
-          (match o with WriteReady _ -> snaps := snap s' :: !snaps | _ -> ());
+          let s' = step lay content enc ks s o in
+          (match o with WriteReady _ -> snaps := snap enc s' :: !snaps | _ -> ());
           s') init (split_ws ops) in
       let bytes = Buffer.create 65536 in
       List.iter (fun chunk -> List.iter (fun b -> Buffer.add_char bytes (Char.chr (in_ b))) chunk) (List.rev s.out);
